@@ -128,6 +128,12 @@ def analyse(ctx):
                          for (op, a, b) in fs)
             arms = []
             r = peel(rhs)
+            # a write-once local standing for the value: look at its initialiser
+            if r.get('kind') == 'DeclRefExpr':
+                dd = _local_decl(u, r)
+                if dd is not None and dd.get('kind') == 'VarDecl' and dd['id'] in F.never_written and _init(dd) is not None \
+                        and dd['id'] not in utc_ids:
+                    r = peel(_init(dd))
             arm_nodes = kids(r)[1:] if r.get('kind') == 'ConditionalOperator' else [r]
             for an in arm_nodes:
                 a = peel(an)
@@ -150,6 +156,41 @@ def analyse(ctx):
                         kind, ok, why = 'utc', True, ''
                 arms.append(dict(node=an, kind=kind, ok=ok, why=why, text=keys.key(an)[:80]))
             slot_writes.append(dict(node=x, absent_fact=absent, arms=arms))
+
+    # insertion through emplace / insert / try_emplace (insert-if-absent) or insert_or_assign
+    for x in walk(f):
+        if x.get('kind') == 'CXXMemberCallExpr' and callee(x) and callee(x)[1] in ('emplace', 'try_emplace', 'insert', 'insert_or_assign') \
+                and callee(x)[2] is not None and _mentions_decl(callee(x)[2], map_ids):
+            args = call_args(x)
+            if len(args) < 2:
+                continue
+            r = peel(args[-1])
+            if r.get('kind') == 'DeclRefExpr':
+                dd = _local_decl(u, r)
+                if dd is not None and dd.get('kind') == 'VarDecl' and dd['id'] in F.never_written and _init(dd) is not None \
+                        and dd['id'] not in utc_ids:
+                    r = peel(_init(dd))
+            arm_nodes = kids(r)[1:] if r.get('kind') == 'ConditionalOperator' else [r]
+            arms = []
+            for an in arm_nodes:
+                a = peel(an)
+                kind, ok, why = 'other', False, 'the value stored in the cache is neither a freshly loaded Impl nor the UTC singleton'
+                if a.get('kind') == 'CXXMemberCallExpr':
+                    c = callee(a)
+                    if c and c[0] == 'method' and c[1] in ('release', 'get') and c[2] is not None:
+                        od = _local_decl(u, c[2])
+                        if od is not None and od['id'] in private_ids:
+                            kind = 'fresh'
+                            afs = F.facts_at_ast(an) or frozenset()
+                            ok = any(op == '!=' and ('.zone_' in a2 + b2) and (keys.key(c[2]) in a2 + b2) for (op, a2, b2) in afs)
+                            why = ('a freshly constructed Impl is published without its zone_ having been tested non-null on '
+                                   'this path')
+                if a.get('kind') == 'DeclRefExpr':
+                    od = _local_decl(u, a)
+                    if od is not None and od['id'] in utc_ids:
+                        kind, ok, why = 'utc', True, ''
+                arms.append(dict(node=an, kind=kind, ok=ok, why=why, text=keys.key(an)[:80]))
+            slot_writes.append(dict(node=x, absent_fact=callee(x)[1] != 'insert_or_assign', arms=arms, lhs_key=None))
 
     # ---- assignments to the out parameter
     out_params = [p for p in kids(f) if p.get('kind') == 'ParmVarDecl' and re.search(r'time_zone\s*\*$', qtype(p))]
